@@ -69,7 +69,7 @@ def verify_function(qualname: str, contract: Contract) -> FunctionReport:
         rep.error = str(e)
         return rep
     rep.ast_hash = ast_hash(node)
-    short = qualname.split(":")[1]
+    short = qualname.split(":")[1].replace("#", "@")
     if modname.endswith("async_"):
         short = "async:" + short
     run = Run(short)
